@@ -346,11 +346,28 @@ def ptycho_stream(ctx):
         ctx.dist[f"ptycho:raw={raw}:{store}"] += 1
 
 
+def same_name_types_stream(ctx, drv):
+    """fixed cases (not drawn, so reached whatever the seed): two DISTINCT types whose class is called
+    `Generator` (np.random.Generator, torch.Generator) occur at three attribute levels and are listed in a
+    type skip list together, in both orders, and alone"""
+    leaf = ["obj", "SA", [["g5", ["nprng", "PCG64"]], ["g6", ["trng"]], ["z", ["scalar", sc.S(3)]]]]
+    child = ["obj", "SB", [["g3", ["nprng", "MT19937"]], ["x", ["scalar", sc.S("x")]], ["g4", ["trng"]], ["leaf", leaf]]]
+    recipe = ["obj", "SA", [["g1", ["nprng", "PCG64"]], ["n", ["scalar", sc.S(1)]], ["g2", ["trng"]], ["child", child]]]
+    k = 0
+    for types in (["Generator", "TorchGenerator"], ["TorchGenerator", "Generator"], ["Generator"], ["TorchGenerator"],
+                  ["int", "Generator", "TorchGenerator"]):
+        for store in ("zip", "dir"):
+            check_case(ctx, drv, recipe, [], types, store, f"samename{k}")
+            k += 1
+    ctx.dist["same_name_type_cases"] += k
+
+
 def run(ctx):
     from qv.driver import Driver
     drv = Driver("C14")
     probe_hybrid(ctx)
     try:
+        same_name_types_stream(ctx, drv)
         n = ctx.n(140, 1500)
         for i in range(n):
             rng = ctx.rng.fork(i)
